@@ -25,6 +25,10 @@ TRUSTED_BASE = [
     "the hand-written model lean/BBModel/* as a reading of /repo (tied by the correspondence suites of this run, not verified)",
     "the correspondence harness (harness/*.py), its generators and canonical printing",
     "CPython, NumPy (IEEE-754 double arithmetic correctly rounded; np.exp antitone, checked on the values used)",
+    "for the *_code_* theorems (C02 C03 C04 C10 C11 C12): the translator tools/py2lean.py (purely syntactic Python-AST -> Lean, "
+    "refuses what it does not know) and the Python/NumPy value algebra lean/BBModel/PyNum.lean (NEP-50 promotion, unsigned wrap, "
+    "float64 rounding, NaN comparisons; x/0 is outside the model), both validated against the interpreter by the S-GEN suite; "
+    "np.exp is an uninterpreted function there (monotone where a theorem says so)",
 ]
 
 
